@@ -162,12 +162,18 @@ func (p *Program) lookupFunc(pkgPath, key string) *ssa.Function {
 		return nil
 	}
 	var res *ssa.Function
-	consider := func(fn *ssa.Function) {
+	var consider func(fn *ssa.Function)
+	consider = func(fn *ssa.Function) {
 		if fn == nil || res != nil {
 			return
 		}
 		if funcKey(fn) == key {
 			res = fn
+			return
+		}
+		// closures of functions and methods ("F$1", "(*T).m$2")
+		for _, an := range fn.AnonFuncs {
+			consider(an)
 		}
 	}
 	names := make([]string, 0, len(sp.Members))
